@@ -1,6 +1,8 @@
 package main
 
 import (
+	"fmt"
+	"os"
 	"go/token"
 	"go/types"
 	"strings"
@@ -372,6 +374,7 @@ func c02Schemes(c *Ctx) {
 		c.Unresolved("C02.4", "BLS12AggregateSignature.participants", "field missing")
 	}
 	c02CheckPop(c)
+	c02BLSKeyLookups(c)
 	c.Exempt("C02.5/empty", "bls12Base.Verify", "security/crypto/bls12.go",
 		"empty participant sets are not rejected by the BLS verifier itself; every certificate verifier compares Participants().Len() with QuorumSize() >= 1 first (C02.1) and single votes are checked by C09.6")
 }
@@ -676,6 +679,52 @@ func c02FindHighest(c *Ctx) {
 	c.Check(okCmp && rangeOK, "C02.7/order", "findHighestValidQC", p.FuncPos(fn),
 		"candidates are sorted by descending view (comparator b.View()-a.View()) and scanned in that order, so the first valid one is the highest valid one",
 		detail+"; ranges over sorted slice: "+boolStr(rangeOK))
+	// a candidate is passed over only because it did not verify: no path from the point where a candidate
+	// is taken from the sorted slice to the next iteration avoids the edge VerifyQuorumCert(candidate) != nil
+	{
+		var open []string
+		n := 0
+		eachInstr(fn, func(in ssa.Instruction) {
+			ia, ok := in.(*ssa.IndexAddr)
+			if !ok || fl.K.Key(ia.X) != sorted || !inLoop(ia.Block()) {
+				return
+			}
+			n++
+			cand := strings.TrimPrefix(fl.K.Key(ia), "&")
+			closes := func(fs []Fact) bool {
+				for _, f := range fs {
+					if f.Op == "!=" && oneIsNil(f) && strings.HasPrefix(nonNil(f), kVerifyQC) && strings.Contains(nonNil(f), ", "+cand+")") {
+						return true
+					}
+				}
+				return false
+			}
+			start := ia.Block()
+			seen := map[*ssa.BasicBlock]bool{}
+			work := []*ssa.BasicBlock{start}
+			for len(work) > 0 {
+				b := work[0]
+				work = work[1:]
+				for _, s := range b.Succs {
+					if edgeBlocked(fl, b, s, closes, 0) {
+						continue
+					}
+					if s == start {
+						open = append(open, p.Pos(ia.Pos()))
+						work = nil
+						break
+					}
+					if !seen[s] {
+						seen[s] = true
+						work = append(work, s)
+					}
+				}
+			}
+		})
+		c.Check(n > 0 && len(open) == 0, "C02.7/complete", "findHighestValidQC", p.FuncPos(fn),
+			"the scan moves on to the next candidate only after VerifyQuorumCert rejected the current one",
+			"a candidate can be passed over without having been rejected by VerifyQuorumCert (loop at "+join(open)+"): a valid certificate with the highest view is skipped and a lower one is reported")
+	}
 	// VerifyAnyQC: the block's QC must equal the aggregate's high QC and is itself verified
 	va := p.Method("security/cert", "Authority", "VerifyAnyQC")
 	if va != nil {
@@ -717,15 +766,16 @@ func c02SignedBytes(c *Ctx) {
 		}
 		fs := NewFlow(p, pr.signer)
 		signOK := false
-		for _, s := range callsIn(pr.signer, false, func(cc *ssa.CallCommon) bool { return cc.IsInvoke() && cc.Method.Name() == "Sign" }) {
-			if strings.HasPrefix(fs.K.Key(s.Common().Args[0]), pr.signCallee) {
+		// (the Sign / Verify call may sit in a private helper of the package: keys in the anchored function's terms)
+		for _, ds := range deepSites(fs, func(cc *ssa.CallCommon) bool { return cc.IsInvoke() && cc.Method.Name() == "Sign" }, 0) {
+			if len(ds.Args) > 0 && strings.HasPrefix(ds.Args[0], pr.signCallee) {
 				signOK = true
 			}
 		}
 		fv := NewFlow(p, pr.verifier)
 		verOK := false
-		for _, s := range callsIn(pr.verifier, false, func(cc *ssa.CallCommon) bool { return cc.IsInvoke() && cc.Method.Name() == "Verify" }) {
-			if strings.HasPrefix(fv.K.Key(s.Common().Args[1]), pr.verifyArgWants) {
+		for _, ds := range deepSites(fv, func(cc *ssa.CallCommon) bool { return cc.IsInvoke() && cc.Method.Name() == "Verify" }, 0) {
+			if len(ds.Args) > 1 && strings.HasPrefix(ds.Args[1], pr.verifyArgWants) {
 				verOK = true
 			}
 		}
@@ -908,4 +958,248 @@ func hasDepContaining(d depSet, sub string) bool {
 		}
 	}
 	return false
+}
+
+// c02BLSKeyLookups (C02.6 for BLS): the aggregate verification uses the sum of the participants'
+// public keys, so a participant whose key cannot be obtained (unknown replica, no valid proof of
+// possession) must make the verification fail -- otherwise it is silently left out of the key
+// set while it still counts in Participants().Len(). For every call of publicKey reachable from
+// Verify / BatchVerify (in the method, its function literals, private helpers of the package and
+// theirs): on the edge where the lookup failed, the enclosing declared function reaches no
+// accepting exit; in a function literal the failing path stores into a captured variable that
+// every accepting exit of the enclosing function has tested to be in its zero state; and if the
+// enclosing function is a helper, its callers treat its error the same way.
+func c02BLSKeyLookups(c *Ctx) {
+	p := c.P
+	pk := p.Method("security/crypto", "bls12Base", "publicKey")
+	if pk == nil {
+		c.Unresolved("C02.6", "bls12Base.publicKey", "anchor missing")
+		return
+	}
+	for _, m := range []string{"Verify", "BatchVerify"} {
+		root := p.Method("security/crypto", "bls12Base", m)
+		if root == nil {
+			c.Unresolved("C02.6", "bls12Base."+m, "anchor missing")
+			continue
+		}
+		var scope []*ssa.Function
+		for _, hf := range helperClosure(p, root, 2) {
+			if hf == pk {
+				continue
+			}
+			scope = append(scope, hf)
+			scope = append(scope, Closures(hf)...)
+		}
+		n := 0
+		for _, fn := range scope {
+			for _, s := range callsIn(fn, false, func(cc *ssa.CallCommon) bool { return calleeIs(cc, pk) }) {
+				call, ok := s.(*ssa.Call)
+				if !ok {
+					continue
+				}
+				n++
+				ok, why := failureRejects(p, root, fn, call, 0)
+				c.Check(ok, "C02.6", "bls12Base."+m+": a failed key lookup fails the verification", p.Pos(call.Pos()),
+					why, why+": the participant is left out of the aggregated key while it still counts as a signer (a sub-quorum signature padded with unknown ids verifies)")
+			}
+		}
+		if n == 0 {
+			c.Unresolved("C02.6", "bls12Base."+m, "no public key lookup reachable from the verifier")
+		}
+	}
+}
+
+// failureRejects: see c02BLSKeyLookups. call returns an error (alone or as its last result) and
+// sits in host; root is the API function whose verdict is at stake.
+func failureRejects(p *Prog, root, host *ssa.Function, call *ssa.Call, depth int) (bool, string) {
+	if depth > 3 {
+		return false, "helper nesting too deep for the rule"
+	}
+	errT := types.Universe.Lookup("error").Type()
+	var errv ssa.Value
+	if tup, ok := call.Type().(*types.Tuple); ok {
+		if refs := call.Referrers(); refs != nil {
+			for _, r := range *refs {
+				if ex, ok := r.(*ssa.Extract); ok && ex.Index == tup.Len()-1 && types.Identical(ex.Type(), errT) {
+					errv = ex
+				}
+			}
+		}
+	} else if types.Identical(call.Type(), errT) {
+		errv = call
+	}
+	if errv == nil {
+		return false, "the error of " + shortCallee(call) + " at " + p.Pos(call.Pos()) + " is discarded"
+	}
+	var failing []*ssa.BasicBlock
+	for _, b := range host.Blocks {
+		iff, ok := b.Instrs[len(b.Instrs)-1].(*ssa.If)
+		if !ok || len(b.Succs) != 2 {
+			continue
+		}
+		bo, ok := iff.Cond.(*ssa.BinOp)
+		if !ok || (bo.Op != token.NEQ && bo.Op != token.EQL) {
+			continue
+		}
+		if !((bo.X == errv && isNilConst(bo.Y)) || (bo.Y == errv && isNilConst(bo.X))) {
+			continue
+		}
+		if bo.Op == token.NEQ {
+			failing = append(failing, b.Succs[0])
+		} else {
+			failing = append(failing, b.Succs[1])
+		}
+	}
+	if len(failing) == 0 {
+		// `return helper(..)`: the caller's test is the test
+		tail := false
+		if host.Parent() == nil && errv == ssa.Value(call) {
+			for _, r := range returnsOf(host) {
+				if n := len(r.Results); n > 0 && retValue(r, n-1) == errv {
+					tail = true
+				}
+			}
+		}
+		if !tail {
+			return false, "the error of " + shortCallee(call) + " at " + p.Pos(call.Pos()) + " is never tested"
+		}
+	}
+	errIdxOf := func(fn *ssa.Function) int {
+		res := fn.Signature.Results()
+		if res.Len() > 0 && types.Identical(res.At(res.Len()-1).Type(), errT) {
+			return res.Len() - 1
+		}
+		return -1
+	}
+	upward := func(fn *ssa.Function) (bool, string) {
+		if fn == root {
+			return true, "on a failed lookup the verifier reaches no accepting exit"
+		}
+		callers := callIndexOf(p).callers[fn]
+		if len(callers) == 0 || callIndexOf(p).asValue[fn] {
+			return false, shortName(fn) + " is used in a way the rule does not follow"
+		}
+		for _, r := range callers {
+			c2, ok := r.Instr.(*ssa.Call)
+			if !ok {
+				return false, shortName(fn) + " is called by go/defer at " + p.Pos(r.Instr.Pos())
+			}
+			if ok, why := failureRejects(p, root, r.In, c2, depth+1); !ok {
+				return false, why
+			}
+		}
+		return true, "on a failed lookup " + shortName(fn) + " fails and every caller up to the verifier fails with it"
+	}
+	if host.Parent() == nil {
+		idx := errIdxOf(host)
+		if idx < 0 {
+			return false, shortName(host) + " has no error result to report the failed lookup with"
+		}
+		fl := NewFlow(p, host)
+		acc := map[ssa.Instruction]bool{}
+		for _, e := range successExits(fl, idx) {
+			acc[e.Ret] = true
+		}
+		for _, fb := range failing {
+			if w := reachAvoidFromPlain(fb, 0, func(in ssa.Instruction) bool { return acc[in] }, func(ssa.Instruction) bool { return false }, map[*ssa.BasicBlock]bool{fb: true}); w != nil {
+				return false, "after the failed lookup at " + p.Pos(call.Pos()) + " the accepting exit at " + p.Pos(w.Pos()) + " is reachable"
+			}
+		}
+		return upward(host)
+	}
+	// a function literal: the failing path must leave a trace in a captured variable
+	outer := host.Parent()
+	var mc *ssa.MakeClosure
+	eachInstr(outer, func(in ssa.Instruction) {
+		if m, ok := in.(*ssa.MakeClosure); ok && m.Fn == ssa.Value(host) {
+			mc = m
+		}
+	})
+	if mc == nil || outer.Parent() != nil {
+		return false, "the function literal at " + p.FuncPos(host) + " is nested in a way the rule does not follow"
+	}
+	ofl := NewFlow(p, outer)
+	oidx := errIdxOf(outer)
+	if oidx < 0 {
+		return false, shortName(outer) + " has no error result to report the failed lookup with"
+	}
+	// the accepting exits that can follow the iteration
+	var exits []SuccessExit
+	for _, e := range successExits(ofl, oidx) {
+		ret := e.Ret
+		if reachAvoidFromPlain(mc.Block(), 0, func(in ssa.Instruction) bool { return in == ssa.Instruction(ret) }, func(ssa.Instruction) bool { return false }, map[*ssa.BasicBlock]bool{}) != nil {
+			exits = append(exits, e)
+		}
+	}
+	for i, fv := range host.FreeVars {
+		if i >= len(mc.Bindings) {
+			continue
+		}
+		isStore := func(in ssa.Instruction) bool {
+			st, ok := in.(*ssa.Store)
+			return ok && st.Addr == ssa.Value(fv)
+		}
+		all := true
+		for _, fb := range failing {
+			if reachAvoidFromPlain(fb, 0, isReturn, isStore, map[*ssa.BasicBlock]bool{fb: true}) != nil {
+				all = false
+			}
+		}
+		if !all || len(failing) == 0 {
+			continue
+		}
+		cell, ok := mc.Bindings[i].(*ssa.Alloc)
+		if !ok {
+			continue
+		}
+		// every accepting exit of the enclosing function knows the cell is in its zero state
+		var keys []string
+		if refs := cell.Referrers(); refs != nil {
+			for _, r := range *refs {
+				if u, ok := r.(*ssa.UnOp); ok && u.X == ssa.Value(cell) {
+					keys = append(keys, ofl.K.Key(u))
+				}
+			}
+		}
+		tested := len(exits) > 0
+		if os.Getenv("HSVERIF_DEBUG") != "" {
+			fmt.Println("DEBUG failureRejects", shortName(outer), "cell keys", keys, "exits", len(exits))
+			for _, e := range exits {
+				fmt.Println("  exit", p.Pos(e.Ret.Pos()), join(e.Facts.Sorted()))
+			}
+		}
+		for _, e := range exits {
+			okE := false
+			for _, k := range keys {
+				zero := func(f Fact) bool {
+					return f == eqFact(k, "nil") || f == (Fact{"false", k, ""}) || f == eqFact(k, "c:0")
+				}
+				// (a later call may touch the captured variable, which ends the must-fact; the test was made and
+				// decided this way on every path to the exit all the same)
+				if e.Facts[eqFact(k, "nil")] || e.Facts[Fact{"false", k, ""}] || e.Facts[eqFact(k, "c:0")] || branchDominates(ofl, e.Ret, zero) {
+					okE = true
+				}
+			}
+			// `return errs`: the caller's nil test is the test
+			if n := len(e.Ret.Results); n > 0 {
+				if u, ok := retValue(e.Ret, n-1).(*ssa.UnOp); ok && u.X == ssa.Value(cell) {
+					okE = true
+				}
+			}
+			if !okE {
+				tested = false
+			}
+		}
+		if tested {
+			return upward(outer)
+		}
+	}
+	return false, "the failed lookup at " + p.Pos(call.Pos()) + " only stops the iteration: no captured variable records it that every accepting exit of " + shortName(outer) + " has tested"
+}
+
+func shortCallee(call *ssa.Call) string {
+	if cal := call.Call.StaticCallee(); cal != nil {
+		return shortName(cal)
+	}
+	return "the call"
 }
